@@ -201,7 +201,7 @@ def dead_after(fn, handoff_ev, varname):
             return False
         return s
 
-    ts = Typestate(fn, False, tr)
+    ts = Typestate(fn, False, tr, correlate=True)
     bad = []
     for e in fn.all_events():
         if e.pos == handoff_ev.pos:
@@ -214,8 +214,13 @@ def dead_after(fn, handoff_ev, varname):
 
 # ---------------------------------------------------------------- interprocedural lock context
 
+GLOBAL_LOCKS = set()
+
+
 def _map_lock(lockstr, argstrs, params):
-    """rewrite a caller-side lock string into the callee's parameter names"""
+    """rewrite a caller-side lock string into the callee's parameter names (locks that are file-scope objects pass through)"""
+    if lockstr in GLOBAL_LOCKS:
+        return lockstr
     best = None
     for a, p in zip(argstrs, params):
         if a and (lockstr == a or lockstr.startswith(a + "->") or lockstr.startswith(a + ".")):
@@ -226,6 +231,7 @@ def _map_lock(lockstr, argstrs, params):
     return best[1] + lockstr[len(best[0]):]
 
 
+CALLBACKS = {"aws_hash_table_foreach": (1, 2, 0)}  # callee -> (callback arg, context arg, callback's context parameter index)
 WAIT_PRED = {"aws_condition_variable_wait_pred": (1, 2, 3), "aws_condition_variable_wait_for_pred": (1, 3, 4)}  # (mutex, pred, ctx) arg indices
 
 
@@ -261,6 +267,19 @@ def entry_locksets(fns, requires, lock_kw=None, rounds=4):
                             mapped.add(m)
                     new[c] = mapped if new[c] is None else (new[c] & mapped)
                     sites[c].append("%s:%d" % (cname, e.line))
+                if c in CALLBACKS:
+                    cbi, cxi, pidx = CALLBACKS[c]
+                    p = arg(f, e.node, cbi)
+                    if p is not None and p["k"] == "fn" and p["n"] in requires and p["n"] in fns:
+                        callee = fns[p["n"]]
+                        ctx = argstr(f, e.node, cxi, addr=False)
+                        mapped = set()
+                        for L in held:
+                            m = _map_lock(L, [ctx], [callee.params[pidx]["n"]]) if len(callee.params) > pidx else None
+                            if m:
+                                mapped.add(m)
+                        new[p["n"]] = mapped if new[p["n"]] is None else (new[p["n"]] & mapped)
+                        sites[p["n"]].append("%s:%d(callback of %s)" % (cname, e.line, c))
                 if c in WAIT_PRED:
                     mi, pi, ci = WAIT_PRED[c]
                     p = arg(f, e.node, pi)
@@ -269,7 +288,9 @@ def entry_locksets(fns, requires, lock_kw=None, rounds=4):
                         m_obj = argstr(f, e.node, mi)
                         ctx = argstr(f, e.node, ci, addr=False)
                         mapped = set()
-                        if m_obj in held and callee.params:
+                        if m_obj in held and m_obj in GLOBAL_LOCKS:
+                            mapped.add(m_obj)
+                        elif m_obj in held and callee.params:
                             m = _map_lock(m_obj, [ctx], [callee.params[0]["n"]])
                             if m:
                                 mapped.add(m)
